@@ -53,6 +53,13 @@ Fixpoint flat_actions (fs : list fscript) (target : list action) : list action :
   | f :: rest => f_pre f ++ (if f_pass f then flat_actions rest target else []) ++ f_post f
   end.
 
+Fixpoint attrs_after (l : list action) (attrs : list (str * str)) : list (str * str) :=
+  match l with
+  | [] => attrs
+  | AAttr k v :: l' => attrs_after l' (pset k v attrs)
+  | _ :: l' => attrs_after l' attrs
+  end.
+
 Fixpoint sees_of (l : list action) (attrs : list (str * str)) : list str :=
   match l with
   | [] => []
@@ -69,7 +76,9 @@ Definition cfg_has_fresh (cfg : dcfg) : bool :=
 Definition expected_sees (cfg : dcfg) (req : request) : list str :=
   match route_request O (d_table cfg) req with
   | RInvoke w r ps =>
-      sees_of (flat_actions (d_cfilters cfg ++ sfilters_of cfg w ++ rfilters_of cfg r) (handler_of cfg r)) []
+      (* the wrapper also carries the selected route and the parameters, under two reserved keys *)
+      sees_of (flat_actions (d_cfilters cfg ++ sfilters_of cfg w ++ rfilters_of cfg r) (handler_of cfg r))
+              [(K_sel, route_path w r); (K_params, of_params_log ps)]
   | RError _ => sees_of (flat_actions (d_cfilters cfg) []) []
   | RPanic => []
   end.
